@@ -13,6 +13,10 @@ CHECKS = {
    text="TLC checks the Framing design (per-stream lock over all Write calls of a frame) for 4 frames x 3 parts and finds the interleaving without the lock; every interleaving of the Write calls (all root-to-leaf paths of the unlocked model's state graph) is forced on the real stdio-server and GET-stream writers through write-point gates; an independent reference reader cuts the recorded bytes; chunk logs of the replays and of ungated stress runs (stdio, GET stream, legacy SSE) are validated by TLC against TraceFraming.",
    note="Trusted: TLC, the recording writer, the reference SSE/line readers. Streams without intra-frame write points (legacy SSE single Fprint, stdio client stdin) are covered by stress only. A user tool sharing one notification sender between its own goroutines is outside the statement.",
    technique="TLA+ model checking (TLC) + gate-forced interleaving replay + TLC trace validation of chunk logs"),
+ "C10": dict(level="model_checking", design="DESIGN.md §5 C10",
+   text="TLC checks InCall (server emission / single id generator / client read loop) for every emission sequence up to 3 notifications over 3 kinds x _meta, every registration subset and both response modes, including termination; every returned state of the graph is a scenario executed on the real server and client (alone and in concurrent pairs) and compared with the model's dispatch sequence; event traces are validated by TLC against TraceInCall.",
+   note="Trusted: TLC, the harness tool handler that emits through the public sender API, the reference SSE parser. Raw event ids are observed on a second identical call by the raw peer. Sizes/timings of notifications are not varied beyond bursts within one call.",
+   technique="TLA+ model checking (TLC) + scenario replay from the state graph + TLC trace validation"),
 }
 NA = {
  "C20": "data-race freedom is a statement about individual memory accesses under the Go memory model; an abstract state-machine specification has no notion of them (see DESIGN.md §6)",
